@@ -83,3 +83,67 @@ contract("_HoldingScopeFinder.get_holding_scope", source=S + "_HoldingScopeFinde
          locals={"new_scope": "Opt[Scope]", "current_scope": "Scope"},
          note="descends from the module scope through the first nested scope that spans the line, as long as that scope is not indented deeper than the line; "
               "stops at a scope that starts on the line (children in source order: the search stops at the first child starting after the line)")
+
+# ---- where a scope ends: find_scope_end -------------------------------------------------------------------------------------------------
+record("Lines", fields={})
+record("LogicalLines", fields={})
+record("Node", fields={"lineno": "Int"})
+record("Ast", fields={"body": "Seq[Node]"})
+record("PyObject", fields={})
+record("PyModule", fields={"logical_lines": "LogicalLines"})
+REG.records["Scope"].fields.update({"parent": "Opt[Scope]", "pyobject": "PyObject", "start": "Int"})
+REG.records["_HoldingScopeFinder"].fields.update({"pymodule": "PyModule"})
+specfun("n_lines", ["_HoldingScopeFinder"], "Int", note="self.lines.length()")
+specfun("ast_of", ["PyObject"], "Ast")
+specfun("logical_end", ["LogicalLines", "Int"], "Int", note="last physical line of the logical line holding that line")
+specfun("logical_begin", ["LogicalLines", "Int"], "Int")
+specfun("starts_in", ["LogicalLines", "Int", "Int"], "Seq[Int]", note="logical_lines.generate_starts(a, b): the logical line starts in [a, b), increasing")
+specfun("empty_line", ["_HoldingScopeFinder", "Int"], "Bool", note="blank or comment-only line")
+specfun("body_indents_of", ["_HoldingScopeFinder", "Scope"], "Int", note="indentation of the scope's first body line")
+contract("_HoldingScopeFinder.lines", abstract=True, is_property=True, pure=True, heap_independent=True, params={"self": "_HoldingScopeFinder"}, returns="Lines")
+contract("_HoldingScopeFinder.logical_lines", abstract=True, is_property=True, pure=True, heap_independent=True, params={"self": "_HoldingScopeFinder"}, returns="LogicalLines",
+         ensures=["result == self.pymodule.logical_lines"])
+contract("Lines.length", abstract=True, pure=True, params={"self": "Lines"}, returns="Int", note="number of lines")
+REG.contracts["Lines.length"].heap_independent = True
+specfun("len_of_lines", ["Lines"], "Int")
+REG.contracts["Lines.length"].ensures = ["result == len_of_lines(self)", "result >= 0"]
+contract("PyObject.get_ast", abstract=True, pure=True, heap_independent=True, params={"self": "PyObject"}, returns="Ast", ensures=["result == ast_of(self)", "len(result.body) >= 1"],
+         note="a function or class definition has at least one body statement")
+contract("LogicalLines.logical_line_in", abstract=True, pure=True, heap_independent=True, params={"self": "LogicalLines", "line_number": "Int"}, returns="Tuple[Int,Int]",
+         ensures=["result[0] == logical_begin(self, line_number)", "result[1] == logical_end(self, line_number)"])
+contract("LogicalLines.generate_starts", abstract=True, pure=True, heap_independent=True, params={"self": "LogicalLines", "start_line": "Int", "end_line": "Int"},
+         returns="Seq[Int]",
+         ensures=["result == starts_in(self, start_line, end_line)",
+                  "forall(lambda a, b: implies(0 <= a and a < b and b < len(result), result[a] < result[b]))",
+                  "forall(lambda a: implies(0 <= a and a < len(result), start_line <= result[a] and result[a] < end_line))"],
+         note="generator of the logical line starts in [start_line, end_line), in increasing order (codeanalyze.CachingLogicalLineFinder; its tokenizer agreement is C14's stand-in)")
+contract("_HoldingScopeFinder._is_empty_line", abstract=True, pure=True, heap_independent=True, params={"self": "_HoldingScopeFinder", "lineno": "Int"}, returns="Bool",
+         ensures=["result == empty_line(self, lineno)"])
+contract("_HoldingScopeFinder._get_body_indents", abstract=True, pure=True, heap_independent=True, params={"self": "_HoldingScopeFinder", "scope": "Scope"}, returns="Int",
+         ensures=["result == body_indents_of(self, scope)"])
+specdef("end0", {"s": "Scope"}, "Int", "ast_of(s.pyobject).body[len(ast_of(s.pyobject).body) - 1].lineno")
+# a one-liner (`def f(): return 1`, header and body on one logical line) has no body line of its own: its body counts as indented 4 deeper than the header
+specdef("body_ind", {"f": "_HoldingScopeFinder", "s": "Scope"}, "Int",
+        "ite(logical_end(f.pymodule.logical_lines, s.start) >= end0(s), indents_of(f, s) + 4, body_indents_of(f, s))")
+SQ = "starts_in(self.pymodule.logical_lines, min(end0(scope) + 1, len_of_lines(self.lines)), len_of_lines(self.lines) + 1)"
+contract("_HoldingScopeFinder.find_scope_end", source=S + "_HoldingScopeFinder.find_scope_end", params={"self": "_HoldingScopeFinder", "scope": "Scope"}, returns="Int",
+         requires=["implies(not is_none(scope.parent), end0(scope) <= len_of_lines(self.lines))"], modifies=[], raises={},
+         ensures=[
+             "implies(is_none(scope.parent), result == len_of_lines(self.lines))", "implies(not is_none(scope.parent), result >= end0(scope))",
+             # a nested scope ends at its last body statement or at a later logical line that still belongs to it
+             "implies(not is_none(scope.parent), result == end0(scope) or exists(lambda k: 0 <= k and k < len(" + SQ + ") and " + SQ + "[k] == result and "
+             "        not empty_line(self, result) and indent_of_line(self, result) >= body_ind(self, scope)))",
+             # every non-empty logical line up to the end is indented at least like the body ...
+             "implies(not is_none(scope.parent), forall(lambda k: implies(0 <= k and k < len(" + SQ + ") and end0(scope) < " + SQ + "[k] and " + SQ + "[k] <= result and not empty_line(self, " + SQ + "[k]), "
+             "        indent_of_line(self, " + SQ + "[k]) >= body_ind(self, scope))))",
+             # ... and the first non-empty one after it is not
+             "implies(not is_none(scope.parent), forall(lambda k: implies(0 <= k and k < len(" + SQ + ") and " + SQ + "[k] > result and not empty_line(self, " + SQ + "[k]) and "
+             "        forall(lambda j: implies(0 <= j and j < k and " + SQ + "[j] > result, empty_line(self, " + SQ + "[j]))), "
+             "        indent_of_line(self, " + SQ + "[k]) < body_ind(self, scope))))"],
+         loops={1: {"index": "i", "inv": [
+             "end == end0(scope) or exists(lambda k: 0 <= k and k < i and elem_at(k) == end and not empty_line(self, end) and indent_of_line(self, end) >= body_indents)",
+             "body_indents == body_ind(self, scope)",
+             "forall(lambda k: implies(0 <= k and k < i and not empty_line(self, elem_at(k)), indent_of_line(self, elem_at(k)) >= body_indents and elem_at(k) <= end))",
+             "forall(lambda k: implies(0 <= k and k < i and not empty_line(self, elem_at(k)), elem_at(k) <= end))",
+             "forall(lambda k: implies(i <= k and k < len(" + SQ + "), end < " + SQ + "[k] or " + SQ + "[k] <= end0(scope)))", "end >= end0(scope)"]}},
+         note="scope extents by indentation; the one-liner rule is `>=` (a header continued over several lines with the body on its last line is a one-liner too)")
